@@ -352,7 +352,23 @@ def scen_refcount():
                     return "dependent requested after release is not inert"
             return (rc, d1, d2), bodies, check
         return (desc, build)
+    def late():
+        # a dependent handed out AFTER the primary was disposed, while another one is alive, counts like any other
+        u = Item("underlying")
+        rc = d.RefCountDisposable(u)
+        d1 = rc.disposable
+        rc.dispose()
+        d3 = rc.disposable
+
+        def check():
+            if u.count != 0:
+                return f"underlying disposed {u.count} time(s) although a dependent handed out after the primary's disposal is still alive"
+            d3.dispose()
+            if u.count != 1:
+                return f"underlying disposed {u.count} times at the end, expected exactly once"
+        return (rc, d1, d3), [d1.dispose, d1.dispose], check
     return [
+        ("late dependent (primary disposed, d1 alive), then d1.dispose || d1.dispose", late),
         mk("d1.dispose || d1.dispose (primary disposed, d2 outstanding)",
            lambda rc, d1, d2: (rc.dispose(), [d1.dispose, d1.dispose])[1], 0),
         mk("primary.dispose || d1.dispose (d2 outstanding)", lambda rc, d1, d2: [rc.dispose, d1.dispose], 0),
